@@ -6,7 +6,7 @@
      head   the request up to and including the empty line, as symbols
      body   [length, hash]            (payloads are never logged byte by byte)
      peer   [ip |-> symbols, port]
-     agree  all read plans gave the same observation
+     agree  all read plans gave the same observation; allFailed: every read plan ended in an error
      got    what Request::from_stream returned, projected on the observables of C02
             (m p q v nh h=[<<name, <<values in order>>>> sorted by name] hasBody body origin proxies port cookies)
      rt     the same projection of parse(serialise(parsed request))
@@ -38,25 +38,40 @@ Expected(r) ==
       method |-> a.method, path |-> a.path, query |-> a.query, version |-> a.version, headers |-> a.headers,
       hasBody |-> a.hasBody, body |-> r.body, addr |-> a.addr, cookies |-> a.cookies, used |-> 0]
 
-Explained(r) ==
+(* Two-level judgement.  "ok": the record is exactly what the specification says.  "drift": it differs only
+   in an observable that is lenient for this request (HttpReqSyntax, Lenient) - or the parser rejected, under
+   every read plan alike, a request whose target or forwarded-for list is outside the property's grammar - and
+   everything else, including independence of the read plan and the round trip, holds.  "bad": anything else. *)
+Judge(r) ==
   LET e == Expected(r)
       g == AbsOf(r.got)
-  IN /\ e.ok /\ r.agree /\ r.got.ok /\ r.rt.ok
-     /\ r.got.nh = Len(e.headers)                      \* number of fields, and
-     /\ ReqEq(g, e)                                     \* per name the values in order, all other observables
-     /\ Len(g.headers) = r.got.nh
-     /\ ReqEq(AbsOf(r.rt), g)                           \* the round trip
-     /\ r.rt.nh = r.got.nh
+      L == Lenient(e)
+  IN IF ~e.ok THEN "bad"
+     ELSE IF /\ r.agree /\ r.got.ok /\ r.rt.ok
+             /\ r.got.nh = Len(e.headers)                      \* number of fields, and
+             /\ ReqEq(g, e)                                     \* per name the values in order, all other observables
+             /\ Len(g.headers) = r.got.nh
+             /\ ReqEq(AbsOf(r.rt), g)                           \* the round trip
+             /\ r.rt.nh = r.got.nh
+          THEN "ok"
+     ELSE IF r.allFailed /\ (InSeq("target", L) \/ InSeq("addr", L)) THEN "drift"
+     ELSE IF /\ L # <<>> /\ r.agree /\ r.got.ok /\ r.rt.ok
+             /\ r.got.nh = Len(e.headers) /\ Len(g.headers) = r.got.nh /\ r.rt.nh = r.got.nh
+             /\ ReqEqL(g, e, L) /\ ReqEqL(AbsOf(r.rt), g, L)
+          THEN "drift"
+     ELSE "bad"
 
-VARIABLES l, bad
-Init == l = 1 /\ bad = <<>>
+VARIABLES l, bad, dr
+Init == l = 1 /\ bad = <<>> /\ dr = <<>>
 Next == /\ l <= Len(Rec)
         /\ l' = l + 1
-        /\ bad' = IF Len(bad) >= 20 THEN bad
-                  ELSE IF Explained(Rec[l]) THEN bad ELSE Append(bad, l)
-Spec == Init /\ [][Next]_<<l, bad>>
+        /\ LET j == IF Len(bad) >= 20 THEN "skip" ELSE Judge(Rec[l])
+           IN /\ bad' = IF j = "bad" THEN Append(bad, l) ELSE bad
+              /\ dr'  = IF j = "drift" /\ Len(dr) < 20 THEN Append(dr, l) ELSE dr
+Spec == Init /\ [][Next]_<<l, bad, dr>>
 
+\* at the last state both lists are printed; only inexplicable records fail the run
 AllExplained == (l = Len(Rec) + 1) =>
-                  \/ bad = <<>>
-                  \/ PrintT(ToJson([rejected |-> bad])) /\ FALSE
+                  /\ (bad = <<>> /\ dr = <<>>) \/ PrintT(ToJson([rejected |-> bad, drift |-> dr]))
+                  /\ bad = <<>>
 =============================================================================
